@@ -144,7 +144,7 @@ static void fam_k2(int thorough) {	// every match finder x mode x nice_len x dep
 	for (int m = 0; m < 5; m++) for (int mode = 0; mode < 2; mode++) for (int ni = 0; ni < 6; ni++) for (int de = 0; de < 3; de++) for (int di = 0; di < 2; di++) { if (!take()) continue;
 		set_lzma(&OL[0], DICT[di], 3, 0, 2, mode ? LZMA_MODE_NORMAL : LZMA_MODE_FAST, NICE[ni], MFS[m], DEPTH[de]); config c; cfg_lzma(&c, EN_RAW, LZMA_FILTER_LZMA2, &OL[0]); n_cfg++;
 		all_sigma2(&c, thorough ? 10 : 7); structured(&c, DICT[di], thorough ? 12 : 9, thorough); in_lcg(5000, 7); roundtrip(&c);
-		for (int dd = -17; dd <= 1; dd += (thorough ? 1 : 4)) { in_farrepeat(DICT[di] + dd, 3 * DICT[di] + 100, 5); roundtrip(&c); } }
+		for (int dd = -17; dd <= 2; dd++) { if (!thorough && dd < -1 && (dd + 17) % 4) continue; in_farrepeat(DICT[di] + dd, 3 * DICT[di] + 100, 5); roundtrip(&c); } }	/* distances dict-1, dict, dict+1, dict+2 in both tiers */
 }
 static void fam_k3(int thorough) {	// presets x checks through the one-shot easy encoder
 	static const lzma_check CK[] = { LZMA_CHECK_NONE, LZMA_CHECK_CRC32, LZMA_CHECK_CRC64, LZMA_CHECK_SHA256 };
@@ -153,7 +153,7 @@ static void fam_k3(int thorough) {	// presets x checks through the one-shot easy
 		if (p >= 7 && !thorough) { in_sigma(0, 0, "ab", 2); roundtrip(&c); in_periodic(3, 5, 3000, 1500); roundtrip(&c); continue; }
 		all_sigma2(&c, p >= 5 ? 3 : (thorough ? 8 : 5)); in_periodic(2, 1, 70000, 35000); roundtrip(&c); in_lcg(4000, p); roundtrip(&c); in_x86(3000); roundtrip(&c); }
 }
-static uint8_t PD[9000];
+static uint8_t PD[40000];
 static void fam_k4(int thorough) {	// preset dictionaries shorter and longer than the dictionary
 	for (size_t i = 0; i < sizeof PD; i++) PD[i] = "abbab"[i % 5]; static const unsigned T[][3] = { {3,0,2}, {0,0,0}, {0,4,4}, {4,0,0}, {1,2,1}, {0,0,4}, {2,2,0}, {0,3,3}, {3,1,2} }; static const uint32_t PS[] = { 0, 100, 9000 };
 	for (int t = 0; t < 9; t++) for (int pd = 0; pd < 3; pd++) for (int m = 0; m < 5; m++) for (int l2 = 0; l2 < 2; l2++) { if (!take()) continue; set_lzma(&OL[0], 4096, T[t][0], T[t][1], T[t][2], m & 1 ? LZMA_MODE_NORMAL : LZMA_MODE_FAST, 16, MFS[m], 0); OL[0].preset_dict = PS[pd] ? PD : NULL; OL[0].preset_dict_size = PS[pd]; preset_dict = OL[0].preset_dict;
@@ -205,9 +205,24 @@ static void fam_k7(int thorough) {	// hooks H1/H2: normalisation and window slid
 		char t[80]; snprintf(t, sizeof t, " H1:normalise-after=%u H2:reserve-cap=%u", NORM_AFTER[na], CAP[cp]); strcat(c.name, t); n_cfg++;
 		lzma_verif_mf_offset_bias = NORM_AFTER[na] ? UINT32_MAX - 4097 - NORM_AFTER[na] : 0; lzma_verif_lz_reserve_cap = CAP[cp];
 		for (unsigned plen = 1; plen <= 4; plen++) for (unsigned pbits = 1; pbits < (1u << plen); pbits += 2) for (size_t L = 900; L <= (thorough ? 9000 : 7000); L += (thorough ? 389 : 1013)) for (int df = 0; df < 3; df++) { long d = df == 0 ? -1 : df == 1 ? (long)NORM_AFTER[na] + 1 : (long)L - 4100; in_periodic(plen, pbits, L, d); roundtrip(&c); }
-		for (int dd = -33; dd <= 1; dd += (thorough ? 1 : 3)) for (size_t L = 9000; L <= 17000; L += 4000) { in_farrepeat((size_t)(4096 + dd), L, 3); roundtrip(&c); }
+		for (int dd = -33; dd <= 2; dd++) for (size_t L = 9000; L <= 17000; L += 4000) { if (!thorough && dd < -1 && (dd + 33) % 3) continue; in_farrepeat((size_t)(4096 + dd), L, 3); roundtrip(&c); }
 		in_lcg(8000, m); roundtrip(&c); c.inchunk = 333; c.outchunk = 50; in_periodic(3, 5, 7500, 3001); roundtrip(&c);
 		lzma_verif_mf_offset_bias = 0; lzma_verif_lz_reserve_cap = 0; }
+	// H2 only (small LZ window): a BCJ filter in front of LZMA2 with every input length around the window size, and preset dictionaries larger than the window
+	for (int v = 0; v < 6; v++) { if (!take()) continue; lzma_verif_lz_reserve_cap = 2048;
+		set_lzma(&OL[0], 4096, 3, 0, 2, LZMA_MODE_FAST, 16, v & 1 ? LZMA_MF_BT4 : LZMA_MF_HC3, 0); config c; memset(&c, 0, sizeof c); c.check = LZMA_CHECK_CRC32; int n = 0;
+		if (v < 4) { c.entry = v < 2 ? EN_STREAM : EN_RAW; c.f[n++] = (lzma_filter){ v & 1 ? LZMA_FILTER_ARM64 : LZMA_FILTER_X86, NULL }; c.f[n++] = (lzma_filter){ LZMA_FILTER_LZMA2, &OL[0] }; c.f[n].id = LZMA_VLI_UNKNOWN;
+			snprintf(c.name, sizeof c.name, "%s chain=%s+lzma2(dict4096) H2:reserve-cap=2048", ENN[c.entry], v & 1 ? "arm64" : "x86"); n_cfg++;
+			/* window size with this cap: 65536 + 2048 + 4370 = 71954 (LZMA2 keeps a whole 64 KiB chunk before the dictionary); the filter's look-ahead bytes can be stranded when the
+			   input ends within a few bytes of a full window, first at 71954 and again every 2048 bytes */
+			for (size_t L = 71800; L <= (thorough ? 80300 : 76300); L++) { if (!thorough && L > 72100 && (L - 71954) % 2048 > 40) continue; in_x86(L); roundtrip(&c); }
+			for (size_t L = 4000; L <= 71800; L += (thorough ? 7 : 61)) { in_x86(L); roundtrip(&c); } }
+		else { for (size_t i = 0; i < sizeof PD; i++) PD[i] = (uint8_t)((i * 2654435761u) >> 13); size_t ps = sizeof PD < 30000 ? sizeof PD : 30000;
+			OL[0].preset_dict = PD; OL[0].preset_dict_size = (uint32_t)ps; preset_dict = PD; cfg_lzma(&c, EN_RAW, v == 4 ? LZMA_FILTER_LZMA2 : LZMA_FILTER_LZMA1, &OL[0]); strcat(c.name, " preset-dict-larger-than-window H2:reserve-cap=2048"); n_cfg++;
+			// data that repeats the END of the preset dictionary (what both sides must agree to keep) and, separately, its beginning
+			for (int part = 0; part < 2; part++) for (size_t L = 100; L <= 3000; L += 700) { memcpy(inb, part ? PD : PD + ps - L, L); inlen = L; snprintf(in_name, sizeof in_name, "copy-of-preset-dict-%s:len%zu", part ? "head" : "tail", L); roundtrip(&c); }
+			preset_dict = NULL; }
+		lzma_verif_lz_reserve_cap = 0; }
 #else
 	(void)thorough;
 #endif
